@@ -95,6 +95,10 @@ def unsigned_leafs_ok(t, qleaf):
         return unsigned_leafs_ok(t[2], qleaf) and unsigned_leafs_ok(t[3], qleaf)
     if t[0] == 'phi':
         return all(unsigned_leafs_ok(x, qleaf) for x in t[1])
+    if t[0] == 'field' and str(t[2]) == '0' and t[1][0] == 'bin':
+        return unsigned_leafs_ok(t[1], qleaf)       # (a op b).0 of a checked operation
+    if t[0] == 'bin' and t[1] in ('Sub', 'SubWithOverflow') and norm(t[3])[0] == 'const':
+        return unsigned_leafs_ok(t[2], qleaf)       # a size minus a constant is no larger (the subtraction is a site of its own)
     if t[0] == 'call' and isinstance(t[1], str) and t[1].endswith(('::saturating_add', '::saturating_mul', '::wrapping_add')) and len(t[2]) == 2:
         return unsigned_leafs_ok(t[2][0], qleaf) and unsigned_leafs_ok(t[2][1], qleaf)      # a sum that cannot panic
     if t[0] == 'const':
